@@ -179,6 +179,13 @@ def subsets(pool, tier):
             yield combo
 
 
+def _chatty_comparer(comparer_params_eval, student_eval, utils):
+    """an author-written comparer that always explains its verdict"""
+    if utils.within_tolerance(comparer_params_eval[0], student_eval):
+        return {'ok': True, 'grade_decimal': 1, 'msg': 'comparer says yes'}
+    return {'ok': False, 'grade_decimal': 0, 'msg': 'comparer says no'}
+
+
 ITEM_KINDS = {
     'String': dict(make=lambda **kw: StringGrader(**kw), e=('cat', 'dog', 'emu'),
                    inputs=['cat', 'dog', 'emu', ' Cat', '', 'ünï—²', 'cat dog']),
@@ -202,6 +209,12 @@ ITEM_KINDS = {
                           e=({'comparer': LinearComparer(proportional=0.5, offset=0.3, linear=0.1), 'comparer_params': ['x^2']},
                              {'comparer': LinearComparer(), 'comparer_params': ['x+1']},
                              {'comparer': LinearComparer(equals=0.8, proportional=0.2), 'comparer_params': ['2*x']}),
+                          inputs=['x^2', '3*x^2', 'x^2+1', '2*x^2-1', 'x', '', 'x+1', '4*x']),
+    # comparers that attach their own message to a full-credit verdict (the answer's credit / pinned ok still decide)
+    'FormulaComparerMsg': dict(make=lambda **kw: FormulaGrader(variables=['x'], **kw),
+                          e=({'comparer': LinearComparer(equals_msg='spot on', proportional=0.5), 'comparer_params': ['x^2']},
+                             {'comparer': LinearComparer(equals_msg='exactly'), 'comparer_params': ['x+1']},
+                             {'comparer': _chatty_comparer, 'comparer_params': ['2*x']}),
                           inputs=['x^2', '3*x^2', 'x^2+1', '2*x^2-1', 'x', '', 'x+1', '4*x']),
     'SingleList': dict(make=lambda **kw: SingleListGrader(subgrader=StringGrader(), **kw), e=('a,b', 'c,d', 'e,f'),
                        inputs=['b,a', 'c,d', 'e,f', 'a', 'a,z', 'a,b,c', '', 'ünï—²', 'a,,b']),
@@ -283,6 +296,8 @@ class ListGraders(ConfigFamily):
                 inputs = [[a, b] for a in WORDS for b in ('2', '2.05', '', 'ünï', '7')]
             else:
                 inputs = [list(t) for t in itertools.product(words, repeat=n)]
+            # the wrong number of input boxes: refused, or one entry per submitted input
+            inputs = inputs + [inputs[0] + [inputs[0][0]], inputs[-1] + ['cat', 'dog'], inputs[0][:-1], inputs[1] + ['']]
             for pc in (True, False):
                 for cname, cfn in credit_options(tier):
                     for cmsg in ((True,) if cfn is None else (True, False)):
